@@ -470,3 +470,173 @@ impl<'a> R<'a> {
 		})
 	}
 }
+
+// ---------------------------------------------------------------------------------------------
+// Deserializer side: Hint (requests) and Out (visitor calls received)
+
+#[derive(Clone, Debug, PartialEq)]
+pub enum Hint {
+	Any,
+	U64,
+	I64,
+	U128,
+	I128,
+	F64,
+	Str,
+	Bytes,
+	Identifier,
+	Ignored,
+	Option(Box<Hint>),
+	Seq(Box<Hint>),
+	Tuple(usize, Box<Hint>),
+	Map(Box<Hint>, Box<Hint>),
+	Struct(Vec<(String, Hint)>),
+	Enum(Vec<(String, VariantHint)>),
+}
+#[derive(Clone, Debug, PartialEq)]
+pub enum VariantHint {
+	Unit,
+	Newtype(Hint),
+	Tuple(usize, Hint),
+	Struct(Vec<(String, Hint)>),
+}
+
+#[derive(Clone, Debug, PartialEq)]
+pub enum Out {
+	Unit,
+	Bool(bool),
+	I32(i32),
+	I64(i64),
+	I128(i128),
+	U32(u32),
+	U64(u64),
+	U128(u128),
+	F32(u32),
+	F64(u64),
+	Str(String, bool),
+	Bytes(Vec<u8>, bool),
+	None,
+	Some(Box<Out>),
+	Seq(Vec<Out>),
+	Map(Vec<(Out, Out)>),
+	Variant(Box<Out>, Box<Out>),
+	/// anything the harness visitor does not model (i8, char, …): never produced by this crate
+	Other(&'static str),
+}
+
+impl W {
+	pub fn hint(&mut self, h: &Hint) -> &mut Self {
+		match h {
+			Hint::Any => self.t("any"),
+			Hint::U64 => self.t("u64"),
+			Hint::I64 => self.t("i64"),
+			Hint::U128 => self.t("u128"),
+			Hint::I128 => self.t("i128"),
+			Hint::F64 => self.t("f64"),
+			Hint::Str => self.t("str"),
+			Hint::Bytes => self.t("bytes"),
+			Hint::Identifier => self.t("identifier"),
+			Hint::Ignored => self.t("ignored"),
+			Hint::Option(h) => self.t("option").hint(h),
+			Hint::Seq(h) => self.t("seq").hint(h),
+			Hint::Tuple(n, h) => self.t("tuple").n(*n).hint(h),
+			Hint::Map(k, v) => self.t("map").hint(k).hint(v),
+			Hint::Struct(fs) => {
+				self.t("struct").n(fs.len());
+				for (k, h) in fs {
+					self.xs(k).hint(h);
+				}
+				self
+			}
+			Hint::Enum(vs) => {
+				self.t("enum").n(vs.len());
+				for (k, v) in vs {
+					self.xs(k);
+					match v {
+						VariantHint::Unit => self.t("unit"),
+						VariantHint::Newtype(h) => self.t("newtype").hint(h),
+						VariantHint::Tuple(n, h) => self.t("tuple").n(*n).hint(h),
+						VariantHint::Struct(fs) => {
+							self.t("struct").n(fs.len());
+							for (k, h) in fs {
+								self.xs(k).hint(h);
+							}
+							&mut *self
+						}
+					};
+				}
+				self
+			}
+		}
+	}
+	pub fn out(&mut self, o: &Out) -> &mut Self {
+		match o {
+			Out::Unit => self.t("unit"),
+			Out::Bool(b) => self.t("bool").n(*b as usize),
+			Out::I32(v) => self.t("i32").t(&v.to_string()),
+			Out::I64(v) => self.t("i64").t(&v.to_string()),
+			Out::I128(v) => self.t("i128").t(&v.to_string()),
+			Out::U32(v) => self.t("u32").t(&v.to_string()),
+			Out::U64(v) => self.t("u64").t(&v.to_string()),
+			Out::U128(v) => self.t("u128").t(&v.to_string()),
+			Out::F32(b) => self.t("f32").t(&format!("{:08x}", b)),
+			Out::F64(b) => self.t("f64").t(&format!("{:016x}", b)),
+			Out::Str(s, b) => self.t("str").xs(s).n(*b as usize),
+			Out::Bytes(s, b) => self.t("bytes").xb(s).n(*b as usize),
+			Out::None => self.t("none"),
+			Out::Some(o) => self.t("some").out(o),
+			Out::Seq(os) => {
+				self.t("seq").n(os.len());
+				for o in os {
+					self.out(o);
+				}
+				self
+			}
+			Out::Map(es) => {
+				self.t("map").n(es.len());
+				for (k, v) in es {
+					self.out(k).out(v);
+				}
+				self
+			}
+			Out::Variant(n, p) => self.t("variant").out(n).out(p),
+			Out::Other(what) => self.t("other").t(what),
+		}
+	}
+}
+
+impl<'a> R<'a> {
+	pub fn hint(&mut self) -> PResult<Hint> {
+		let t = self.tok()?;
+		Ok(match t {
+			"any" => Hint::Any,
+			"u64" => Hint::U64,
+			"i64" => Hint::I64,
+			"u128" => Hint::U128,
+			"i128" => Hint::I128,
+			"f64" => Hint::F64,
+			"str" => Hint::Str,
+			"bytes" => Hint::Bytes,
+			"identifier" => Hint::Identifier,
+			"ignored" => Hint::Ignored,
+			"option" => Hint::Option(Box::new(self.hint()?)),
+			"seq" => Hint::Seq(Box::new(self.hint()?)),
+			"tuple" => Hint::Tuple(self.n()?, Box::new(self.hint()?)),
+			"map" => Hint::Map(Box::new(self.hint()?), Box::new(self.hint()?)),
+			"struct" => Hint::Struct(self.list(|r| Ok((r.xs()?, r.hint()?)))?),
+			"enum" => Hint::Enum(self.list(|r| {
+				let k = r.xs()?;
+				let t = r.tok()?;
+				let v = match t {
+					"unit" => VariantHint::Unit,
+					"newtype" => VariantHint::Newtype(r.hint()?),
+					"tuple" => VariantHint::Tuple(r.n()?, r.hint()?),
+					"struct" => VariantHint::Struct(r.list(|r| Ok((r.xs()?, r.hint()?)))?),
+					_ => return Err(format!("unknown variant hint {t}")),
+				};
+				Ok((k, v))
+			})?),
+			_ => return Err(format!("unknown hint {t}")),
+		})
+	}
+}
